@@ -16,17 +16,17 @@ CONSTANT Tier        \* "quick" or "thorough"
 Q == Tier = "quick"
 Dom == [
   poolAmts   |-> IF Q THEN {0, 2, 9, 10, 13, 24, 30}
-                      ELSE {0, 1, 2, 5, 7, 9, 10, 11, 13, 17, 20, 24, 30},
+                      ELSE {0, 2, 5, 9, 10, 13, 17, 24, 30},
   deltaAmts  |-> IF Q THEN {-30, -17, -10, -1, 0, 1, 4, 17, 30}
-                      ELSE {-30, -24, -17, -13, -10, -7, -4, -1, 0, 1, 4, 7, 10, 13, 17, 24, 30},
+                      ELSE {-30, -24, -17, -10, -4, -1, 0, 1, 4, 7, 10, 17, 30},
   pricePairs |-> IF Q THEN {<<1, 1>>, <<2, 3>>} ELSE {<<1, 1>>, <<2, 3>>, <<3, 1>>},
   exps       |-> {Unit, 2 * Unit, 3 * Unit},
   factorPairs |-> IF Q THEN {<<0, 3>>, <<1, 2>>, <<2, 2>>, <<3, 1>>, <<1, 6>>, <<4, 5>>, <<6, 6>>}
-                       ELSE {<<0, 0>>, <<0, 3>>, <<1, 2>>, <<2, 2>>, <<3, 1>>, <<1, 6>>, <<4, 5>>, <<5, 6>>, <<6, 1>>, <<6, 6>>},
-  mid        |-> IF Q THEN 32 ELSE 64,
+                       ELSE {<<0, 3>>, <<1, 2>>, <<2, 2>>, <<3, 1>>, <<1, 6>>, <<4, 5>>, <<6, 1>>, <<6, 6>>},
+  mid        |-> IF Q THEN 32 ELSE 48,
   swapAmts   |-> IF Q THEN {0, 7, 12, 20, 30} ELSE {0, 3, 7, 12, 20, 30},
-  swapDeltas |-> IF Q THEN {-20, -8, -3, 0, 3, 8, 20} ELSE {-20, -12, -8, -3, 0, 3, 8, 12, 20},
-  viAmts     |-> IF Q THEN {0, 12} ELSE {0, 4, 9, 25},
+  swapDeltas |-> {-20, -8, -3, 0, 3, 8, 20},
+  viAmts     |-> IF Q THEN {0, 12} ELSE {0, 9, 25},
   swapPrices |-> {<<1, 1>>, <<2, 1>>},
   oiAmts     |-> IF Q THEN {0, 5, 10, 14, 22, 30} ELSE {0, 2, 5, 10, 11, 14, 22, 30},
   posDeltas  |-> IF Q THEN {-30, -14, -9, -5, -1, 1, 5, 9, 14, 30}
